@@ -220,6 +220,17 @@ impl Gen {
     }
 
     fn gen_param_ty(&mut self) -> Ty {
+        // open finding (return-type dispatch on a nil guard): no parameter of type `T | []`
+        for _ in 0..6 {
+            let t = self.gen_param_ty0();
+            if !(t.contains_nil() && !t.is_nil()) {
+                return t;
+            }
+        }
+        Ty::Int
+    }
+
+    fn gen_param_ty0(&mut self) -> Ty {
         match self.rng.below(12) {
             0 | 1 => Ty::nil(),
             2 | 3 | 4 => Ty::Int,
